@@ -13,10 +13,8 @@ import gen_punct
 
 PID = 'C19'
 THEOREMS = ['C19_separator_separates', 'C19_relex_spaced', 'C19_punctuator_pairs', 'C19_nonvacuous',
-            # package eprint (Properties_C19_eprint.v): print_tokens modelled; its output re-lexes to exactly the tokens it was given (any list), idempotence
-            'C19_eprint_tokenizer_output_printable', 'C19_eprint_plain_text_roundtrip', 'C19_eprint_cut', 'C19_eprint_printable_decidable', 'C19_eprint_glued_pair_sound', 'C19_eprint_roundtrip',
-            'C19_eprint_same_tokens', 'C19_eprint_hash_at_line_start', 'C19_eprint_faithful', 'C19_eprint_leading_hash_always_refuted', 'C19_eprint_leading_hash_refuted', 'C19_eprint_print_of_read',
-            'C19_eprint_idempotent', 'C19_eprint_nonvacuous', 'C19_eprint_nonvacuous_mixed', 'C19_eprint_not_printable']
+            # package eprint (Properties_C19_eprint.v): print_tokens modelled; its output re-lexes (after phases 1-2) to exactly the tokens it was given (any list), idempotence
+            'C19_eprint_tokenizer_output_printable', 'C19_eprint_plain_text_roundtrip', 'C19_eprint_cut', 'C19_eprint_printable_decidable', 'C19_eprint_glued_pair_sound', 'C19_eprint_roundtrip', 'C19_eprint_same_tokens', 'C19_eprint_hash_at_line_start', 'C19_eprint_survives_phases_1_2', 'C19_eprint_reread', 'C19_eprint_faithful', 'C19_eprint_leading_hash_always_refuted', 'C19_eprint_leading_hash_refuted', 'C19_eprint_print_of_read', 'C19_eprint_idempotent', 'C19_eprint_nonvacuous', 'C19_eprint_nonvacuous_mixed', 'C19_eprint_nonvacuous_backslash', 'C19_eprint_nonvacuous_bom', 'C19_eprint_not_printable']
 MODELRUN = os.path.join(VERIF, 'ocaml/modelrun')
 
 def dump(chibi, f, raw, extra=()):
